@@ -1,7 +1,9 @@
 CONSTANTS
   MaxLen = 5
   Free = FALSE
+  Switches = 0
+  Prelude = FALSE
 INIT Init
 NEXT Next
-INVARIANTS TypeOK LifecycleInv ParamsIsolated ShadowFrozen SetsCompose
+INVARIANTS TypeOK LifecycleInv ParamsIsolated ShadowFrozen SetsCompose Emit
 CHECK_DEADLOCK FALSE
